@@ -233,6 +233,13 @@ def cases(thorough):
                     if not thorough and len(set(s)) == 3:
                         continue
                     yield {"fn": "box", "pos_unit": pu, "arg_unit": ru, "form": form, "origin": list(o), "size": list(s), "ds": "full"}
+    # the three sizes of a box each in a unit of its own
+    for pu in ("m", "cm"):
+        for axis_units in (("m", "cm", "m"), ("cm", "m", "m"), ("m", "m", "cm"), ("cm", "cm", "m"), ("cm", "m", "cm")):
+            for form in forms:
+                for o in origins[::3]:
+                    for s in ([0.5, 0.5, 0.5], [2.0, 0.5, 2.0], [0.5, 2.0, 2.0], [2.0, 2.0, 0.5]):
+                        yield {"fn": "box", "pos_unit": pu, "arg_unit": axis_units[0], "axis_units": list(axis_units), "form": form, "origin": list(o), "size": s, "ds": "full"}
     for o in origins[::2]:
         for r in (0.5, 1.0):
             yield {"fn": "sphere", "pos_unit": "m", "arg_unit": "cm", "form": "Array", "origin": list(o), "size": r, "ds": "regrouped"}
@@ -265,7 +272,8 @@ def run_case(acc, idx, c):
         if c["fn"] == "sphere":
             sub = osyris.extract_sphere(ds, radius=region_arg(c["size"] * f, c["arg_unit"], c["form"]), origin=origin)
         else:
-            args = [region_arg(s * f, c["arg_unit"], c["form"]) for s in c["size"]]
+            axu = c.get("axis_units", [c["arg_unit"]] * 3)
+            args = [region_arg(s * scale[c["pos_unit"]] / scale[u], u, c["form"]) for s, u in zip(c["size"], axu)]
             sub = osyris.extract_box(ds, dx=args[0], dy=args[1], dz=args[2], origin=origin)
     except Exception as e:
         import warnings
